@@ -45,11 +45,11 @@ def load_cm():
         from ..ref import xray as rx
     except ImportError:
         return None
-    for name in ("cromer_mann", "cromermann_table", "read_f0", "f0_table", "waaskirf"):
-        fn = getattr(rx, name, None)
-        if fn is not None:
-            return fn()
-    return None
+    fn = getattr(rx, "cromer_mann_coefficients", None)
+    if fn is None:
+        return None
+    out = fn()
+    return out if isinstance(out, dict) else None
 
 
 def sweep(pt, T, label, path, acc):
